@@ -89,4 +89,12 @@ CHECKS['C02'] = {
     'technique': 'symbolic execution of the real constructors on z3-backed name proxies (all feasible paths) vs statement oracle',
 }
 
+CHECKS['C15'] = {
+    'engine': 'SP', 'category': 'other', 'design_ref': 'DESIGN.md 1 (SP), 4 (C15)',
+    'text': ('Symbolic names: every query method runs on trees (one per node kind x child slot x leaf form x wrapper, at expression/predicate/event/disjunction level) whose variable, '
+             'quantifier, probe and alias names are z3-backed proxies, under every feasible decision sequence, and must agree with oracles computed on the tree specs; iterate() is compared with a field-wise preorder.'),
+    'note': 'Trusted: z3; the proxy str subclass (every path re-run with real str names); oracles in vf/checks/c15.py and vf/props.py.',
+    'technique': 'symbolic execution of the real query methods on z3-backed name proxies (all feasible paths) vs statement oracle',
+}
+
 NOT_APPLICABLE = {}
